@@ -104,8 +104,8 @@ def main(tier):
     ht, = V.build(['h_topo'])
     d = V.rundir('c13')
     rnd = random.Random(V.seed())
-    scenes = [gen_scene(rnd) for _ in range(150 if quick else 4000)]
-    for _ in range(150 if quick else 3000):
+    scenes = [gen_scene(rnd) for _ in range(600 if quick else 4000)]
+    for _ in range(600 if quick else 3000):
         sc = abutting_scene(rnd)
         if sc:
             scenes.append(sc)
